@@ -367,10 +367,61 @@ def run_backends(ctx, r, h, seed, n):
                 r.hits.append(Hit('monitor', 'C17:backend:%s:conc_%s' % (i_.split(' ')[3] if i_ else '?', kind),
                                   'back-end under real concurrency: %s -> %s' % (i_, ln),
                                   {'harness': 'c17_fifo', 'args': args, 'case': i_, 'observed': ln}))
+    tot = r.extra.setdefault('_backend_counts', [0, 0])
+    tot[0] += nseq
+    tot[1] += nconc
     r.extra['fifo_backend_testing_only'] = ('lockfree_fifo (moodycamel): %d sequential DIFF cases over all back-ends and %d '
-                                            'concurrent conservation/per-producer-order runs — TESTING, not proof' % (nseq, nconc))
+                                            'concurrent conservation/per-producer-order runs — TESTING, not proof' % (tot[0], tot[1]))
     if nseq == 0:
         r.hits.append(Hit('tie', 'C17:fifo_harness', 'back-end harness produced no cases: %s' % out[-300:], {'harness': 'c17_fifo', 'args': args}))
+
+
+def replay(ctx, r, drv, h_iq, h_dq, h_ff):
+    """re-run the case stored in a replay file (deque cases individually, other harnesses as a whole)"""
+    import json
+    data = json.load(open(ctx.replay))
+    rp = data.get('replay') or {}
+    hn, args, case = rp.get('harness'), [str(a) for a in rp.get('args', [])], rp.get('case') or ''
+    r.rule = 'replay of %s' % ctx.replay
+    if hn == 'c17_deque':
+        p = case.split(' ')
+        if args and args[0] == 'witness' or (len(p) > 2 and p[2] == 'w'):
+            hargs = ['witness', 0, 0, 1]
+        elif args and args[0] == 'seq':
+            hargs = ['seq', int(args[1]), int(p[2]) if len(p) > 2 else int(args[2]), 1]
+        else:
+            hargs = ['lock', int(args[1]), int(p[2]) if len(p) > 2 and p[2].isdigit() else int(args[2]), 1]
+        ins, outs, died, errs = run_deque_harness(ctx, h_dq, hargs[0], hargs[1], hargs[2], hargs[3], 300)
+        if hargs[0] == 'seq':
+            for k in outs:
+                ops = parse_prog(ins[k].split(' ')[4])
+                cont = []
+                exp = list_spec(ops, cont)
+                want = 'OUT DS %s res=%s rest=%s' % (k, ','.join(exp), ','.join(str(x) for x in cont) if cont else '-')
+                r.evaluations += 1
+                if outs[k] != want:
+                    r.hits.append(Hit('monitor', 'C17:deque:sequential', 'replay: returned [%s], the list gives [%s]' % (outs[k][:300], want[:300]),
+                                      {'harness': 'c17_deque', 'args': hargs, 'case': ins[k], 'observed': outs[k]}))
+            for (cid, phase, what, inl) in died:
+                r.hits.append(Hit('monitor', 'C17:deque:seq_' + what.lower(), 'replay: the real code %s' % what, {'harness': 'c17_deque', 'args': hargs, 'case': inl}))
+        else:
+            check_deque_cases(ctx, r, drv, 'replay', hargs, ins, outs, died, errs)
+    elif hn == 'c17_fifo':
+        run_backends(ctx, r, h_ff, int(args[0]), int(args[1]))
+    elif hn == 'c17_iq':
+        rc, out = sh([h_iq] + args, timeout=3000)
+        lines = out.split('\n')
+        ins = [x for x in lines if x.startswith('IN ')]
+        outs = [x for x in lines if x.startswith('OUT ')]
+        for i_, o_ in zip(ins, outs):
+            r.evaluations += 1
+            m = iq_monitor(i_, o_)
+            if m:
+                r.hits.append(Hit('monitor', 'C17:iq:' + m[0], 'contiguous_index_queue: ' + m[1],
+                                  {'harness': 'c17_iq', 'args': args, 'case': i_, 'observed': o_}))
+    else:
+        r.notes.append('nothing to replay in %s' % ctx.replay)
+    return r
 
 
 def run(ctx):
@@ -388,6 +439,8 @@ def run(ctx):
     h_dq = ctx.build_harness('c17_deque', 'c17_deque.cpp', extra=['-mcx16'])
     h_ff = ctx.build_harness('c17_fifo', 'c17_fifo.cpp', extra=['-mcx16'])
     quick = ctx.tier == 'quick'
+    if ctx.replay:
+        return replay(ctx, r, drv, h_iq, h_dq, h_ff)
 
     # ---------------- index queue
     n = 3000 if quick else 60000
@@ -450,7 +503,7 @@ def run(ctx):
         r.notes.append('F15 witness executed but produced no violation on the implementation')
 
     # ---------------- deque: generated lock-step cases
-    ncase = 6000 if quick else 60000
+    ncase = 6000 if quick else 30000
     naba = 0
     for sd in seeds:
         ins, outs, died, errs = run_deque_harness(ctx, h_dq, 'lock', sd, 0, ncase, 600 if quick else 3000)
